@@ -13,7 +13,10 @@ ty    : ("b", "int") | ("n", pkg, name, under) | ("p", ty) | ("s", ty) | ("o", "
 Every case is a scratch sub-tree with a `src` and a `dest` package; the fixed helper types (Kind, Sub, Item, Dec ...)
 are declared in `types.go` of both packages and get their own `shoot map` run.
 """
+import os
 import re
+import shutil
+import subprocess
 
 from .sexp import Q, dump
 
@@ -204,6 +207,12 @@ def ST(name, members, kind="plain"):
     return {"name": name, "kind": kind, "members": members}
 
 
+def BACK(name):
+    """an embedded POINTER to a struct the embedding struct lies inside of (`type T struct{ *T; … }`, or T embeds B and B embeds *T):
+    the finite unfolding stops here - everything below is hidden by the shallower occurrence"""
+    return {"k": "e", "decl": {"name": name, "members": [], "kind": "plain", "back": True}, "ptr": True}
+
+
 def leaves(s, pre=()):
     """every non-embedded field with its dotted path, depth-first in declaration order (the oracle's order)"""
     out = []
@@ -230,6 +239,8 @@ def slots(s, pre=()):
                 if t[1][0] == "p":
                     out += [p + "#0", p + "#1"]
         else:
+            if m["decl"].get("back"):
+                continue          # stays nil: the oracle passes it by
             p = ".".join(pre + (m["decl"]["name"],))
             if m["ptr"]:
                 out.append(p)
@@ -253,7 +264,7 @@ def part_masks(st):
 
     def walk(s_, pre=()):
         for m in s_["members"]:
-            if m["k"] == "e":
+            if m["k"] == "e" and not m["decl"].get("back"):
                 p = ".".join(pre + (m["decl"]["name"],))
                 if m["ptr"]:
                     emb.add(p)
@@ -287,7 +298,7 @@ def all_types(spec):
 def embed_decls(s, out=None):
     out = out if out is not None else []
     for m in s["members"]:
-        if m["k"] == "e":
+        if m["k"] == "e" and not m["decl"].get("back"):
             if all(d["name"] != m["decl"]["name"] for d in out):
                 out.append(m["decl"])
             embed_decls(m["decl"], out)
@@ -499,6 +510,8 @@ def members_sexp(s, tix):
                 if m.get(d):
                     item.append(d)
             out.append(item)
+        elif m["decl"].get("back"):
+            out.append(["e", Q(m["decl"]["name"]), "ptr", "back", ["body"]])
         else:
             out.append(["e", Q(m["decl"]["name"]), "ptr" if m["ptr"] else "val", ["body"] + members_sexp(m["decl"], tix)])
     return out
@@ -803,7 +816,72 @@ class MapGen:
                     spec["manual"]["wfields"] = r.sample(dn, r.randint(1, min(2, len(dn))))
                 if sn:
                     spec["manual"]["rfields"] = r.sample(sn, r.randint(1, min(2, len(sn))))
+        if r.random() < o.get("selfembed", 0.03):
+            add_self_embed(r, spec, o.get("selfembed_side"), o.get("selfembed_variant"))
         return spec
+
+
+def add_self_embed(rng, spec, side=None, variant=None):
+    """cyclic embedding on a side: `self` - the type embeds a pointer to itself; `mutual` - a struct the type embeds (by value or
+    pointer) embeds a pointer back to the type; `inner` - an embedded struct embeds a pointer to itself. Expectation: the
+    generator terminates and maps the pairs of the finite unfolding (the back reference contributes nothing: all it could
+    promote is hidden by the shallower occurrence)"""
+    sides = [side] if side in ("src", "dest") else rng.choice([["src"], ["dest"], ["src", "dest"]])
+    for sd in sides:
+        st = spec[sd]
+        embeds = [m["decl"] for m in st["members"] if m["k"] == "e" and not m["decl"].get("back")]
+        v = variant or rng.choice(["self", "mutual", "inner"])
+        if v != "self" and not embeds:
+            v = "self"
+        if v == "self":
+            target, name = st, st["name"]
+        elif v == "mutual":
+            target, name = rng.choice(embeds), st["name"]
+        else:
+            target = rng.choice(embeds)
+            name = target["name"]
+        if any(m["k"] == "e" and m["decl"]["name"] == name for m in target["members"]):
+            continue
+        ms = target["members"]
+        pos = [k for k in range(len(ms) + 1) if k == len(ms) or not ms[k].get("join")]
+        ms.insert(rng.choice(pos), BACK(name))
+        spec["selfembed"] = True
+    return spec
+
+
+def is_cyclic(spec):
+    def walk(s_):
+        return any(m["k"] == "e" and (m["decl"].get("back") or walk(m["decl"])) for m in s_["members"])
+    return walk(spec["src"]) or walk(spec["dest"])
+
+
+def probe_cyclic(ctx, cases, mem_kb=3000000, timeout=60):
+    """no-hang assertion for the cases with cyclic embedding: every `shoot` run of the case is executed in a private copy under an
+    address-space limit and a timeout BEFORE the case joins the batch (an unbounded field walk otherwise takes tens of GB before
+    it dies). Returns {case id: "crash" | "hang"} for the cases whose run did not come back with exit 0 - an observation
+    (`exit`), never an infrastructure error"""
+    from . import core, pkgrun
+    todo = [c for c in cases if is_cyclic(c["spec"])]
+    if not todo:
+        return {}
+    b = pkgrun.Batch(ctx, "probe")
+    for c in todo:
+        b.add(c)
+    shoot = ctx.shoot()
+
+    def one(c):
+        for r_ in c.get("runs", []):
+            cwd = os.path.join(b.cdir(c), r_.get("cwd", "."))
+            try:
+                p = core.run(["bash", "-c", 'ulimit -v %d; exec "$0" "$@"' % mem_kb, shoot] + r_["args"], cwd=cwd, timeout=timeout)
+            except subprocess.TimeoutExpired:
+                return "hang"
+            if p.returncode != 0:
+                return "crash"
+        return "0"
+    out = core.pmap(one, todo, workers=4)
+    shutil.rmtree(b.root, ignore_errors=True)
+    return {c["id"]: v for c, v in zip(todo, out) if v != "0"}
 
 
 def unexport(name):
@@ -1190,7 +1268,9 @@ def count_features(spec, feats=None):
 
         def walk(st, d):
             for m in st["members"]:
-                if m["k"] == "e":
+                if m["k"] == "e" and m["decl"].get("back"):
+                    inc("%s-cyclic-embed-d%d" % (side, d + 1))
+                elif m["k"] == "e":
                     inc("%s-embed-%s-d%d" % (side, "ptr" if m["ptr"] else "val", d + 1))
                     walk(m["decl"], d + 1)
                 else:
